@@ -62,7 +62,8 @@ def evaluate(sid, checks, tier="quick"):
     try:
         for c in checks:
             t0 = time.time()
-            rc, o = sh(f"./check {c} --tier {tier}", VERIF, timeout=7200)
+            # evidence and replay files of runs against a seeded change go to a scratch directory, not to /verif/evidence
+            rc, o = sh(f"BPPV_OUT=/var/tmp/bppv-side/mutant-out ./check {c} --tier {tier}", VERIF, timeout=7200)
             viol = [l for l in o.splitlines() if l.startswith("VIOLATION")]
             res[c] = {"exit": rc, "violations": len(viol), "first": (o.splitlines()[o.splitlines().index(viol[0]) + 1].strip() if viol and o.splitlines().index(viol[0]) + 1 < len(o.splitlines()) else ""),
                       "wall_s": round(time.time() - t0), "tool_error": [l for l in o.splitlines() if l.startswith("TOOL-ERROR")][:1]}
